@@ -890,7 +890,8 @@ def md_expected(r):
 
 # ------------------------------------------------------------------------------------------ discharge (E-matching first)
 _engine_discharge = E.discharge
-RLIMIT = 30000000
+# the most expensive proof of this check needs about 2.5e6 resource units (list_suggestion_operations.order); all others < 2e5
+RLIMIT_EMATCH, RLIMIT_MBQI, SAFETY_MS = 15000000, 6000000, 120000
 
 
 def discharge(run, formula, npc=None, nax=None, timeout_ms=10000, extra=()):
@@ -901,7 +902,8 @@ def discharge(run, formula, npc=None, nax=None, timeout_ms=10000, extra=()):
     engine's discharge."""
     t0 = time.time()
     s = z3.Solver()
-    s.set('timeout', timeout_ms)
+    s.set('timeout', SAFETY_MS)          # budgets are resource limits (load independent); the timeout is only a safety net
+    s.set('rlimit', RLIMIT_EMATCH)
     s.set('smt.mbqi', False)
     pcs = run.pc if npc is None else run.pc[:npc]
     axs = run.axioms if nax is None else run.axioms[:nax]
@@ -919,8 +921,8 @@ def discharge(run, formula, npc=None, nax=None, timeout_ms=10000, extra=()):
         return 'unknown', 'the path of this decided clause is not refuted (E-matching saturated)', time.time() - t0
     # second attempt with model-based instantiation under a resource limit (z3 honours rlimit, not its timeout, in MBQI)
     s2 = z3.Solver()
-    s2.set('timeout', min(timeout_ms, 4000))
-    s2.set('rlimit', RLIMIT)
+    s2.set('timeout', SAFETY_MS)
+    s2.set('rlimit', RLIMIT_MBQI)
     for c in list(pcs) + list(axs) + list(extra):
         s2.add(c)
     if len(lits) > 1:
@@ -935,6 +937,20 @@ def discharge(run, formula, npc=None, nax=None, timeout_ms=10000, extra=()):
 
 
 E.discharge = discharge
+
+
+def quick_refutable(run, rlimit=1500000):
+    """are the hypotheses of the path refuted by E-matching within a small resource budget?  (vacuity guard)"""
+    s = z3.Solver()
+    s.set('timeout', SAFETY_MS)
+    s.set('rlimit', rlimit)
+    s.set('smt.mbqi', False)
+    for c in list(run.pc) + list(run.axioms):
+        s.add(c)
+    lits = pm.all_str_lits()
+    if len(lits) > 1:
+        s.add(z3.Distinct(*lits))
+    return s.check() == z3.unsat
 
 
 # ------------------------------------------------------------------------------------------ recorded findings
@@ -1002,7 +1018,7 @@ def verify_method(job):
         ok = None
         for p in E.explore(make_entry(method, variant)):
             if p.kind == 'return' and p.value.contract[0] == 'return' and p.value.impl[0] == 'return':
-                ok = discharge(p.run, z3.BoolVal(False), timeout_ms=1500)[0] != 'unsat'
+                ok = quick_refutable(p.run) is False
                 if ok:
                     break
         if not ok:
@@ -1131,7 +1147,9 @@ def main(tier):
     # only findings that are still `open` in known_findings.d may explain a failed obligation / a divergence
     open_findings = tuple(f.get('obligation') for f in chk.findings if f.get('status', 'open') == 'open')
     devs = [d for d, o in DEV_OBLIGATION.items() if o in open_findings]
-    native_proc = start_native({'maxlen': 3 if quick else 4, 'alphabet': 'quick', 'workers': 10 if quick else 16, 'deviations': devs})
+    native_proc = start_native({'maxlen': 3 if quick else 4, 'alphabet': 'quick', 'workers': 10 if quick else 16, 'deviations': devs,
+                                'file_maxlen': 2 if quick else 4, 'probe_reads_maxlen': 2 if quick else 3,
+                                'prune_noops': quick})
     native2_proc = None if quick else start_native({'maxlen': 2, 'alphabet': 'thorough', 'workers': 4, 'targeted': False, 'deviations': devs})
 
     # ---- Part 1: the 20 RAM methods
